@@ -132,7 +132,7 @@ def worldOp (m : MState) (ss : Specs) (wn : String) (op : Op) (implRes : Res) (i
 def isContainerVerb (v : String) : Bool :=
   v == "types" || v == "#arena" || v == "#fill" ||
     (v.length > 1 && (v.startsWith "b" || v.startsWith "c" || v.startsWith "q" || v.startsWith "p") &&
-      ["bnew","badd","badd_bundle","bobs","bclear","bspawn","bbuild_drop","bbuild","cspawn","bclone","cback","bdrop",
+      ["bnew","badd","badd_bundle","badd_built","bobs","bclear","bspawn","bbuild_drop","bbuild","cspawn","bclone","cback","bdrop",
        "qnew","qspawn","qinsert","qremove","qdespawn","qrun","qclear","qdrop",
        "pnew","ppush","pbuild","pspawn","pspawn_at","pdrop"].contains v)
 
@@ -244,6 +244,14 @@ def line (cs : CState) (m : MState) (ss : Specs) (lhs : String) (rhs : String) :
           | _ => ((f "b").bind comps?).getD []
         let (a', d) := Arena.addAll cs.layOf b.arena comps []
         ({ cs with builders := setK cs.builders n { b with arena := a' } }, m, ss, cmpApi ("ok " ++ dstr d) rhs)
+    | "badd_built" =>
+      -- `builder.add_bundle(&built)`: every value of the built clone-bundle is cloned into the builder
+      match getK cs.builders n, (f "from").bind (getK cs.builders) with
+      | some b, some src =>
+        let (cc', vs) := cloneVals cs.cc src.arena.vals
+        let (a', d) := Arena.addAll cs.layOf b.arena vs []
+        ({ cs with builders := setK cs.builders n { b with arena := a' }, cc := cc' }, m, ss, cmpApi ("ok " ++ dstr d) rhs)
+      | _, _ => fail (.err "bad badd_built")
     | "bobs" =>
       match getK cs.builders n with
       | none => fail (.err s!"unknown builder {n}")
